@@ -17,7 +17,7 @@
 (* mixed sets, {}, true, closures, native functions).                                          *)
 EXTENDS Naturals, Sequences, FiniteSets, TLC, Json
 
-CONSTANTS Mode,      \* "bin" | "un" | "lib" | "src"
+CONSTANTS Mode,      \* "bin" | "un" | "lib" | "src" | "srcwalk"
           MaxToks,   \* for src
           LibArity,  \* for lib: maximal number of operands
           Small      \* TRUE: the short kind list
@@ -46,14 +46,22 @@ Seqs(A, n) == UNION {[1..k -> A] : k \in 1..n}
 Cases == CASE Mode = "bin" -> {[k |-> "bin", op |-> o, a |-> x, b |-> y] : o \in BinOps, x \in Kinds, y \in Kinds}
            [] Mode = "un"  -> {[k |-> "un", op |-> o, a |-> x] : o \in UnOps, x \in Kinds}
            [] Mode = "lib" -> {[k |-> "lib", args |-> s] : s \in Seqs(Kinds, LibArity)}
-           [] OTHER        -> {[k |-> "src", toks |-> s] : s \in Seqs(Toks, MaxToks)}
+           [] Mode = "src" -> {[k |-> "src", toks |-> s] : s \in Seqs(Toks, MaxToks)}
+           [] OTHER        -> {}          \* "srcwalk": the token string is grown step by step (Grow)
 
-Init == case \in Cases /\ outcome = "pending" /\ done = FALSE
+Init == /\ outcome = "pending" /\ done = FALSE
+        /\ IF Mode = "srcwalk" THEN case = [k |-> "src", toks |-> <<>>] ELSE case \in Cases
+\* sampling long token strings: the simulator appends one token per step (the set of all strings of
+\* MaxToks tokens is too large to build)
+Grow == /\ Mode = "srcwalk" /\ outcome = "pending" /\ ~done /\ Len(case.toks) < MaxToks
+        /\ \E t \in Toks : case' = [case EXCEPT !.toks = Append(@, t)]
+        /\ UNCHANGED <<outcome, done>>
 \* the only behaviours the property allows
-Evaluate == outcome = "pending" /\ outcome' \in {"value", "error"} /\ UNCHANGED <<case, done>>
+Evaluate == Mode # "srcwalk" /\ outcome = "pending" /\ outcome' \in {"value", "error"} /\ UNCHANGED <<case, done>>
 Emit == /\ outcome = "pending" /\ ~done /\ done' = TRUE /\ UNCHANGED <<case, outcome>>
+        /\ (Mode = "srcwalk" => Len(case.toks) = MaxToks)
         /\ PrintT(ToJson([spec |-> "Totality", c |-> case]))
-Next == Evaluate \/ Emit
+Next == Evaluate \/ Emit \/ Grow
 Spec == Init /\ [][Next]_vars
 Total == outcome \in {"pending", "value", "error"}
 =============================================================================
